@@ -41,15 +41,22 @@ class StringSimplifyConstant:
     def filter(self, node):
         return is_string_const(node) and node != '""'
 
+    def __is_content(self, s):
+        # within a string literal, quotes only occur doubled
+        return '"' not in s.replace('""', '')
+
     def mutations(self, node):
         yield Simplification({node.id: Node('""')}, [])
         content = node[1:-1]
+        cands = []
         for sec in nodes.binary_search(len(content)):
             start = self.__fix_escape_sequences(content, sec[0])
-            yield Simplification(
-                {node.id: Node(f'"{content[:start]}{content[sec[1]:]}"')}, [])
-        yield Simplification({node.id: Node(f'"{content[1:]}"')}, [])
-        yield Simplification({node.id: Node(f'"{content[:-1]}"')}, [])
+            cands.append(f'{content[:start]}{content[sec[1]:]}')
+        cands.append(content[1:])
+        cands.append(content[:-1])
+        for cand in cands:
+            if self.__is_content(cand):
+                yield Simplification({node.id: Node(f'"{cand}"')}, [])
 
     def global_mutations(self, node, input_):
         for simp in self.mutations(node):
